@@ -141,8 +141,8 @@ type Facts struct {
 	// BuiltinBind: for builtin implementations that are closures built by a factory: what their free variables hold
 	// (keyed by "<overload table or builtin name>#<arity>")
 	BuiltinBind map[string]map[*ssa.FreeVar]ssa.Value
-	HandlerVar *ssa.Global
-	err        []string
+	HandlerVar  *ssa.Global
+	err         []string
 }
 
 func (w *World) factSummary() map[string]int {
